@@ -94,6 +94,21 @@ func parse64[T fixed.Dx](r rec, s string) {
 		}
 		return fmt.Sprint(int64(p))
 	})
+	// the unmarshal entry points see the same bytes (quoted or not)
+	r.do("T", func() string {
+		var p f64.Int[T]
+		if err := p.UnmarshalText([]byte(s)); err != nil {
+			return "ERR"
+		}
+		return fmt.Sprint(int64(p))
+	})
+	r.do("J", func() string {
+		var p f64.Int[T]
+		if err := p.UnmarshalJSON([]byte(s)); err != nil {
+			return "ERR"
+		}
+		return fmt.Sprint(int64(p))
+	})
 }
 
 func chk64[T fixed.Dx](r rec, raw int64, d int) {
@@ -196,6 +211,20 @@ func parse128[T fixed.Dx](r rec, s string) {
 	r.do("P", func() string {
 		p, err := f128.FromString[T](s)
 		if err != nil {
+			return "ERR"
+		}
+		return p.String()
+	})
+	r.do("T", func() string {
+		var p f128.Int[T]
+		if err := p.UnmarshalText([]byte(s)); err != nil {
+			return "ERR"
+		}
+		return p.String()
+	})
+	r.do("J", func() string {
+		var p f128.Int[T]
+		if err := p.UnmarshalJSON([]byte(s)); err != nil {
 			return "ERR"
 		}
 		return p.String()
